@@ -85,7 +85,7 @@ fn main() {
         }
         "checkchainfind" => {
             let n = args.get(2).and_then(|x| x.parse().ok()).unwrap_or(1000);
-            let d = args.get(3).and_then(|x| x.parse().ok()).unwrap_or(8);
+            let d: i32 = args.get(3).and_then(|x| x.parse().ok()).unwrap_or(8);
             e2_oracles::checkchainfind(n, d);
         }
         "chainfind" => {
